@@ -164,6 +164,13 @@ def parseIn (s : Sexp) : Option E2EIn := do
   let route ← (← s.field1? "route").asAtom?
   some { d, flags, psnames, conflict, route }
 
+/-- decidable form of `TopoOk` (the hypothesis of `inlined_components_exported`) -/
+def topoOkB (snap : Table) : List String → List String → Bool
+  | _, [] => true
+  | pre, n :: post =>
+    ((snap.comps n).all fun c => snap.isExport c || pre.contains c || (snap.comps c).all snap.isExport) &&
+      topoOkB snap (pre ++ [n]) post
+
 def containsSub (hay needle : String) : Bool := (hay.splitOn needle).length > 1
 
 def dedupPairs (xs : List (Nat × Nat)) : List (Nat × Nat) :=
@@ -188,6 +195,9 @@ def handleE2E : Handler := fun s =>
     let prelim := ufoGlyphOrder (d.order.map (·.map some)) names
     let fin := finalOrder { glyphs := gs, prelim, preferSimple }
     let mCmap := fin.bind buildCmap
+    -- hypothesis of `inlined_components_exported`, evaluated on this source
+    let t0 := pruneMissing names (Table.ofList gs)
+    let topo := topoOkB t0 [] (depthSorted names t0)
     -- ---------------- property-level expectations (independent of the pipeline model)
     let core := (firstOcc (declNames.filter (expNames.contains ·)) ++
       sortNames (expNames.filter (!declNames.contains ·))).filter (· ≠ notdef)
@@ -214,6 +224,7 @@ def handleE2E : Handler := fun s =>
       (if gs.any (fun g => g.codepoints.length ≥ 2) then ["multi-cp"] else []) ++
       (if gs.any (fun g => g.codepoints.any (· ≥ 0x10000)) then ["supplementary-cp"] else []) ++
       (if nDerived > 0 then ["derived"] else []) ++
+      (if topo then [] else ["TOPO-HYPOTHESIS-FALSE"]) ++
       (if cpConflict then ["cp-conflict"] else [])
     let nt := expNames.length ≥ 3 && expNames.length < names.length && d.order.isSome
     match s.field? "result" with
@@ -242,7 +253,8 @@ def handleE2E : Handler := fun s =>
           match fin, mCmap with
           | some fo, some cm =>
             let mPost := postNames rename fo.order
-            if !allCompiled { glyphs := gs, prelim, preferSimple } fo then (false, "model: a final glyph is not compiled, implementation builds")
+            if !topo then (false, "the depth-sorted order is not topological for non-export references")
+            else if !allCompiled { glyphs := gs, prelim, preferSimple } fo then (false, "model: a final glyph is not compiled, implementation builds")
             else if mPost != fnames then (false, s!"post: model={mPost} font={fnames}")
             else if !samePairs (dedupPairs (cm.filter (·.2 != 0))) (f.cmap.filter (·.2 != 0)) then
               (false, s!"cmap: model={cm} font={f.cmap}")
